@@ -102,7 +102,14 @@ def run_shape(shape):
             Mr = None
             if not noncorr:
                 Mr = T.MSM(traj[::-1].copy(), n).get_one_tau_transition_matrix(tau, noncorr)
-        return M, Mr, [d._M.copy() for d in RecDok.made]
+            doks = [d._M.copy() for d in RecDok.made]
+            # history on one object: the other mode first, then this one, then this one again, then through the all-taus helper
+            obj = T.MSM(traj, n)
+            obj.get_one_tau_transition_matrix(tau, not noncorr)
+            H1 = obj.get_one_tau_transition_matrix(tau, noncorr)
+            H2 = obj.get_one_tau_transition_matrix(tau, noncorr)
+            H3 = obj.get_all_tau_transition_matrices(np.array([tau]), noncorrelated_windows=noncorr)[0]
+        return M, Mr, doks, (H1, H2, H3)
 
     c = _oracle_counts(L, n, tau, noncorr, xs, nans)
     K = [[z3.ToReal(z3.Int(f"k{a}_{b}")) for b in range(n)] for a in range(n)]   # fresh (integer-valued) count variables for the cut
@@ -112,7 +119,7 @@ def run_shape(shape):
             acc.structural("no_exception", False, detail=repr(path.value) + (path.tb or "")[-500:],
                            cex={"kind": "exception", "exc": type(path.value).__name__})
             continue
-        M, Mr, doks = path.value
+        M, Mr, doks, hist = path.value
         prem = path.premises
         if acc.reachable is not True:
             acc.reach(prover.satisfiable(prem))
@@ -137,6 +144,8 @@ def run_shape(shape):
                         out.append((f"reversal[{i},{j}]", z(Ar[i, j]) == a))
             return out
 
+        hclaims = [(f"same_object_history[{hn},{i},{j}]", z(Hm.toarray()[i, j]) == z(A[i, j])) for hn, Hm in enumerate(hist) for i in range(n) for j in range(n)]
+        acc.add(prover.prove_all(prem, hclaims), make_cex=lambda r_: {})
         oc = lambda i, j: z3.ToReal(c(i, j) + c(j, i))
         os_ = lambda i: z3.Sum([oc(i, k) for k in range(n)])
         direct = final_claims(A, Ar, oc, os_)
@@ -220,11 +229,18 @@ def numeric_violations(shape, traj):
     with contextlib.redirect_stdout(io.StringIO()):
         M = T.MSM(np.array(traj, dtype=float), n).get_one_tau_transition_matrix(tau, noncorr)
         Mr = T.MSM(np.array(traj[::-1], dtype=float), n).get_one_tau_transition_matrix(tau, noncorr)
+        obj = T.MSM(np.array(traj, dtype=float), n)
+        obj.get_one_tau_transition_matrix(tau, not noncorr)
+        hist = [obj.get_one_tau_transition_matrix(tau, noncorr), obj.get_one_tau_transition_matrix(tau, noncorr),
+                obj.get_all_tau_transition_matrices(np.array([tau]), noncorrelated_windows=noncorr)[0]]
     A = np.asarray(M.toarray(), dtype=float)
     ref, S = reference_matrix(traj, n, tau, noncorr)
     bad = []
     if A.shape != (n, n):
         return [f"shape {A.shape}"]
+    for hn, Hm in enumerate(hist):
+        if not np.allclose(np.asarray(Hm.toarray(), dtype=float), ref, rtol=1e-12, atol=1e-15):
+            bad.append(f"same_object_history[{hn}]")
     for i in range(n):
         for j in range(n):
             if not isclose(A[i, j], ref[i, j]):
